@@ -456,7 +456,9 @@ fn cmd_minimise(args: &[String]) {
     });
     // a schedule that can be said in a few words beats a list of deviations: try singling out
     // each job the violation names, on an otherwise sequential schedule
-    if best.strategy.name != "seq" && !(best.strategy.victim.is_some() && best.strategy.base.as_deref() == Some("seq")) {
+    if (best.strategy.name != "seq" || !best.overrides.is_empty())
+        && !(best.strategy.victim.is_some() && best.strategy.base.as_deref() == Some("seq"))
+    {
         let mut named: Vec<String> = reference_rec
             .jobs
             .iter()
